@@ -107,6 +107,39 @@ func (e *Enc) callCommon(fr *Frame, st *State, cc *ssa.CallCommon, fnv *Val, arg
 	if fnv != nil && fnv.Clos != nil {
 		return e.callStatic(fr, st, fnv.Clos.Fn, fnv.Clos.Bind, args, rt, hint, pos)
 	}
+	if fnv != nil && len(fnv.Alts) > 0 {
+		// one of several known closures, depending on the path: case split
+		var sts []*State
+		var conds []string
+		var ress []*Val
+		for _, a := range fnv.Alts {
+			sa := st.clone()
+			sa.reach = and(st.reach, a.Cond)
+			if sa.reach == "false" {
+				continue
+			}
+			r := e.callStatic(fr, sa, a.Clos.Fn, a.Clos.Bind, args, rt, hint, pos)
+			if sa.reach == "false" {
+				continue
+			}
+			sts = append(sts, sa)
+			conds = append(conds, sa.reach)
+			ress = append(ress, r)
+		}
+		if len(sts) == 0 {
+			st.reach = "false"
+			if rt == nil {
+				return &Val{}
+			}
+			return e.zeroVal(rt)
+		}
+		m := e.mergeStates(hint+"!alts", sts, conds)
+		*st = *m
+		if rt == nil {
+			return &Val{}
+		}
+		return e.mergeVals(hint+"!altres", ress, conds)
+	}
 	if fn := cc.StaticCallee(); fn != nil {
 		var binds []*Val
 		if mc, ok := cc.Value.(*ssa.MakeClosure); ok {
@@ -115,6 +148,14 @@ func (e *Enc) callCommon(fr *Frame, st *State, cc *ssa.CallCommon, fnv *Val, arg
 			}
 		}
 		return e.callStatic(fr, st, fn, binds, args, rt, hint, pos)
+	}
+	// call through a package-level variable of function type: a contract may be attached to the variable
+	if ld, ok := cc.Value.(*ssa.UnOp); ok && ld.Op == token.MUL {
+		if g, ok := ld.X.(*ssa.Global); ok && g.Pkg != nil && g.Pkg.Pkg != nil {
+			if c, ok := e.DB.Contracts["varcall:"+g.Pkg.Pkg.Path()+"."+g.Name()]; ok && c.callable() {
+				return e.applyContract(fr, st, c, append([]*Val{fnv}, args...), rt, hint, pos)
+			}
+		}
 	}
 	// dynamic function value: a contract may be attached to its named function type
 	dk := "dyncall:" + typeStr(cc.Value.Type())
@@ -157,6 +198,20 @@ func (e *Enc) callStatic(fr *Frame, st *State, fn *ssa.Function, binds []*Val, a
 	key := fnKey(fn)
 	if c, ok := e.DB.Contracts[key]; ok && c.callable() && len(binds) == 0 {
 		return e.applyContract(fr, st, c, args, rt, hint, pos)
+	}
+	if c, ok := e.DB.Contracts[key]; ok && c.callable() && c.closure && len(binds) == len(fn.FreeVars) {
+		// a closure with its own contract: the captured variables' cells are the bindings
+		cells := map[string]*Val{}
+		for i, fv := range fn.FreeVars {
+			if b := binds[i]; b != nil && isPointer(fv.Type()) && b.Loc == nil && b.Clos == nil {
+				cells[fv.Name()] = b
+			}
+		}
+		saved := e.applyCells
+		e.applyCells = cells
+		r := e.applyContract(fr, st, c, args, rt, hint, pos)
+		e.applyCells = saved
+		return r
 	}
 	if fn.Blocks != nil && e.canInline(fr, fn) {
 		return e.inline(fr, st, fn, binds, args, rt, hint, pos)
@@ -377,6 +432,9 @@ func (e *Enc) applyContract(fr *Frame, st *State, c *Contract, args []*Val, rt t
 	sig := c.Sig
 	vars := e.bindParams(c, args, sig)
 	short := c.funcType
+	if c.closure {
+		short = c.funcName
+	}
 	if c.Obj != nil {
 		short = c.Obj.Name()
 		if sig.Recv() != nil {
@@ -384,7 +442,7 @@ func (e *Enc) applyContract(fr *Frame, st *State, c *Contract, args []*Val, rt t
 		}
 	}
 	siteName := e.site(fr, "call:"+short, pos)
-	env := &Env{e: e, vars: vars, st: st, old: st, pkgPath: c.PkgPath, imports: c.Imports, fr: nil}
+	env := &Env{e: e, vars: vars, st: st, old: st, pkgPath: c.PkgPath, imports: c.Imports, fr: nil, cells: e.applyCells}
 	for i, rq := range c.Requires {
 		g, err := env.evalBool(rq.E)
 		if err != nil {
@@ -406,7 +464,7 @@ func (e *Enc) applyContract(fr *Frame, st *State, c *Contract, args []*Val, rt t
 	case "any":
 		e.addPanic(fr, st, "callpanic:"+short, "true", "callee "+c.Key+" may panic", pos)
 	case "only_if", "iff":
-		penv := &Env{e: e, vars: vars, st: pre, old: pre, pkgPath: c.PkgPath, imports: c.Imports}
+		penv := &Env{e: e, vars: vars, st: pre, old: pre, pkgPath: c.PkgPath, imports: c.Imports, cells: e.applyCells}
 		p, err := penv.evalBool(c.PanicCond)
 		if err != nil {
 			e.unsupportedf("panics clause of %s: %v", c.Key, err)
@@ -423,7 +481,7 @@ func (e *Enc) applyContract(fr *Frame, st *State, c *Contract, args []*Val, rt t
 			// a repo contract without modifies clause: conservatively havoc everything
 			e.havocAll(st)
 		} else {
-			menv := &Env{e: e, vars: vars, st: pre, old: pre, pkgPath: c.PkgPath, imports: c.Imports}
+			menv := &Env{e: e, vars: vars, st: pre, old: pre, pkgPath: c.PkgPath, imports: c.Imports, cells: e.applyCells}
 			for i, m := range c.Modifies {
 				cond := "true"
 				if i < len(c.ModWhen) && c.ModWhen[i] != nil {
@@ -503,7 +561,7 @@ func (e *Enc) applyContract(fr *Frame, st *State, c *Contract, args []*Val, rt t
 	} else {
 		res = &Val{}
 	}
-	env2 := &Env{e: e, vars: copyVals(vars), st: st, old: pre, pkgPath: c.PkgPath, imports: c.Imports}
+	env2 := &Env{e: e, vars: copyVals(vars), st: st, old: pre, pkgPath: c.PkgPath, imports: c.Imports, cells: e.applyCells}
 	env2.bindResults(c, res, rt)
 	for _, en := range c.Ensures {
 		g, err := env2.evalBool(en.E)
